@@ -1,6 +1,7 @@
 import MwVerif.Lemmas.Tree.Replace
 import MwVerif.Lemmas.Passes.FixParagraphs
 import MwVerif.Lemmas.Passes.FixNestingWords
+import MwVerif.Lemmas.SplitRow.Lossless
 /-!
 # C07 — cleaning is lossless for ordinary content (primitive level)
 
@@ -39,3 +40,21 @@ theorem c07_fix_nesting_lossless (c : NCfg) (n : Nat) (t : T) (h : t.innerWordle
 example : (T.node 0 0 [] [.node 1 5 [] [.node 2 7 ["w"] []]]).innerWordless = true := by rfl
 
 end MwVerif.Tree
+
+namespace MwVerif.SplitRow
+
+/-- **C07 (`split_row` keeps every cell's content, in order).**  When `split_big_table_cells` cuts a
+table row, reading column `c` of the new rows from top to bottom gives exactly the children of the
+original cell `c`, in order, for every row, every height estimate and every page height: nothing is
+lost or duplicated, and within a cell nothing is re-ordered (only the cells of the row are
+interleaved, see the recorded finding). -/
+theorem c07_split_row_lossless (mx : Nat) (row : List (List (Nat × Nat))) (c : Nat) (hc : c < row.length) :
+    column (splitRow mx row) c = (row[c]).map (·.2) := by
+  unfold splitRow
+  rw [column_newRows _ c (by simpa using hc)]
+  simp [chunks_flatten]
+
+/-- a cell of three children of height 200 with page height 378 is cut in two; the short cell stays in the first row. -/
+example : splitRow 378 [[(200, 1), (200, 2), (200, 3)], [(10, 9)]] = [[[1], [9]], [[2, 3], []]] := by decide
+
+end MwVerif.SplitRow
